@@ -692,6 +692,16 @@ Fixpoint split_eos_aux (cur : list dunit) (us : list dunit) : list (list dunit) 
   end.
 Definition split_eos (us : list dunit) : list (list dunit) := split_eos_aux [] us.
 
+(* `us` is (at most) one sequence of a stream: non-empty, and no data unit follows an end of
+   sequence *)
+Fixpoint eos_at_most_last (us : list dunit) : bool :=
+  match us with
+  | [] => true
+  | u :: r => (negb (is_eos_kind (u_kind u)) || match r with [] => true | _ => false end) && eos_at_most_last r
+  end.
+Definition one_sequence (us : list dunit) : bool :=
+  match us with [] => false | _ => eos_at_most_last us end.
+
 (* ---------------------------------------------------------------- "individually valid data units" *)
 (* The property's hypothesis, for one sequence:
    - a data unit is at least its 13-byte parse_info long;
